@@ -108,6 +108,9 @@ func phaseTemplates(eco, tier string) []string {
 		t = expandAll("{d}.{d}(|.{d})(|-alpha{d}|-beta|-RC{d}|-patch{d}|pl{d})")
 	case "golang":
 		t = expandAll("v{d}.{d}.{d}(|-{l}|-{l}.{d})(|+incompatible)")
+		// the three pseudo-version forms next to the ordinary pre-releases they must interleave with
+		t = append(t, mustTemplates("golang")[:3]...)
+		t = append(t, "v{d}.{d}.{d}-{l}{l}.{d}")
 	case "conan":
 		t = expandAll("{d}.{d}(|.{d})(|-{l}|-{l}.{d})(|+{d})")
 	case "cran":
